@@ -26,8 +26,25 @@ import (
 func (checker *Checker) VisitUnaryExpression(expression *ast.UnaryExpression) Type {
 
 	var expectedType Type
-	if expression.Operation == ast.OperationMove {
+	switch expression.Operation {
+	case ast.OperationMove:
 		expectedType = checker.expectedType
+
+	case ast.OperationMinus:
+		// The parser only folds the minus into a positive integer literal.
+		// For the other integer literals, e.g. `-0`, propagate the expected type to the literal,
+		// if it is a signed integer type, so that e.g. `let x: Int8 = -0` is valid, just like `let x: Int8 = -1`.
+		// Otherwise, the literal would be inferred to have type `Int`.
+		if _, ok := expression.Expression.(*ast.IntegerExpression); ok &&
+			checker.expectedType != nil {
+
+			unwrappedExpectedType := UnwrapOptionalType(checker.expectedType)
+			if unwrappedExpectedType != NeverType &&
+				IsSameTypeKind(unwrappedExpectedType, SignedIntegerType) {
+
+				expectedType = checker.expectedType
+			}
+		}
 	}
 
 	valueType := checker.VisitExpressionWithForceType(
